@@ -762,6 +762,13 @@ func CheckModuli(q, p []uint64) error {
 		}
 	}
 
+	// P must be coprime to Q: the basis extension and the division by P are carried out modulo each Qi
+	for i, pi := range p {
+		if slices.Contains(q, pi) {
+			return fmt.Errorf("a Pi (i=%d) is also a Qi", i)
+		}
+	}
+
 	return nil
 }
 
